@@ -236,6 +236,19 @@ macro_rules! hooked_atomic {
             }
         }
 
+        impl std::ops::DerefMut for $name {
+            fn deref_mut(&mut self) -> &mut $inner {
+                &mut self.0
+            }
+        }
+
+        impl $name {
+            /// see the std type
+            pub fn into_inner(self) -> $prim {
+                self.0.into_inner()
+            }
+        }
+
         impl fmt::Debug for $name {
             fn fmt(&self, f: &mut fmt::Formatter<'_>) -> fmt::Result {
                 fmt::Debug::fmt(&self.0, f)
@@ -272,6 +285,21 @@ impl<K: Eq + Hash + HookKey, V> DashMap<K, V> {
     /// see `dashmap::DashMap`
     pub fn new() -> Self {
         Self(dashmap::DashMap::new())
+    }
+
+    /// see `dashmap::DashMap`
+    pub fn with_capacity(capacity: usize) -> Self {
+        Self(dashmap::DashMap::with_capacity(capacity))
+    }
+
+    /// see `dashmap::DashMap`
+    pub fn with_shard_amount(shard_amount: usize) -> Self {
+        Self(dashmap::DashMap::with_shard_amount(shard_amount))
+    }
+
+    /// see `dashmap::DashMap`
+    pub fn with_capacity_and_shard_amount(capacity: usize, shard_amount: usize) -> Self {
+        Self(dashmap::DashMap::with_capacity_and_shard_amount(capacity, shard_amount))
     }
 
     #[inline]
@@ -405,6 +433,12 @@ impl<K, V> Deref for DashMap<K, V> {
     }
 }
 
+impl<K, V> std::ops::DerefMut for DashMap<K, V> {
+    fn deref_mut(&mut self) -> &mut Self::Target {
+        &mut self.0
+    }
+}
+
 impl<K: Eq + Hash + fmt::Debug, V: fmt::Debug> fmt::Debug for DashMap<K, V> {
     fn fmt(&self, f: &mut fmt::Formatter<'_>) -> fmt::Result {
         fmt::Debug::fmt(&self.0, f)
@@ -477,6 +511,12 @@ impl<T> Deref for SegQueue<T> {
     type Target = crossbeam::queue::SegQueue<T>;
     fn deref(&self) -> &Self::Target {
         &self.0
+    }
+}
+
+impl<T> std::ops::DerefMut for SegQueue<T> {
+    fn deref_mut(&mut self) -> &mut Self::Target {
+        &mut self.0
     }
 }
 
